@@ -211,6 +211,10 @@ class _State:
         """{type parameter name: type at this call site} when the callee's type parameters can be read off its
         signature (bare identifiers such as `T`, `K`) and match the call's generic arguments in number."""
         targs = [a for a in (call_callee.get("args") or []) if isinstance(a, str) and not a.startswith("'")]
+        gen = [g for g in (callee.get("generics") or []) if not g.startswith("'")]
+        if gen and len(gen) == len(targs):
+            # the declared parameter names (a parameter that occurs in the where-clauses only is still substituted)
+            return {g: a for g, a in zip(gen, targs) if re.fullmatch(r"[A-Z]\w*", g) and g != "Self" and g != a} or None
         names = []
         for t in list(callee.get("sig_in") or []) + [callee.get("sig_out") or ""]:
             for m in re.finditer(r"(?<![\w:])([A-Z]\w*)(?![\w:<])", t or ""):
@@ -379,6 +383,12 @@ class _State:
             if b["cleanup"]:
                 continue
             t = b["term"]
+            if t["k"] == "call" and t.get("t") is not None and not t.get("callee") and t.get("fn_op"):
+                # a call through a function pointer whose value is known here (`variant(x)` with `variant` the constructor
+                # `Property::UserProperty` handed to an inlined generic helper): the call of that function; for the
+                # constructor of an enum variant, the literal it builds
+                self._devirtualise(i, b, t)
+                t = b["term"]
             if t["k"] != "call" or t.get("t") is None or not t.get("callee"):
                 continue
             depth, stack = self.meta[i]
@@ -392,6 +402,8 @@ class _State:
                 path = c["resolved_generic"]
             if self.fl.loops and c.get("krate") in ("core", "std", "alloc") and c["def"] in ("std::iter::Iterator::try_for_each", "std::iter::Iterator::for_each") \
                     and self._expand_iter_loop(i, b, t, c, depth, stack):
+                continue
+            if self.fl.loops and c.get("krate") in ("core", "std", "alloc") and c["def"] == "std::iter::Iterator::fold" and self._expand_fold_literal(i, b, t, c, depth, stack):
                 continue
             if self.fl.expand and c.get("krate") in ("core", "std", "alloc") and self._expand(i, b, t, c, depth, stack):
                 continue
@@ -880,6 +892,115 @@ class _State:
         self._splice_closure(body, self.blocks[body], f, cl[1], [{"k": "move", "pl": {"l": item, "p": _dc("Some", 1, ty=item_ty, adt=OPTION)}}], _pl(r), chk, depth, stack, line)
         self.blocks[sw]["term"] = {"k": "switch", "op": _mv(d), "ty": "isize", "targets": [[0, done], [1, body]], "otherwise": dead, "line": line, "exp": False, "expanded": "iter_loop"}
         b["term"] = _goto(head, line)
+        b["term"]["expanded"] = c["def"]
+        return True
+
+    def _fn_item_of(self, op):
+        for _ in range(10):
+            if op is None:
+                return None
+            if op.get("k") == "const":
+                return op.get("fn")
+            if op.get("k") not in ("move", "copy") or [p for p in op["pl"]["p"] if p != "deref"]:
+                return None
+            st = self.single_def(op["pl"]["l"])
+            if st is None:
+                return None
+            rv = st["rv"]
+            if rv["k"] in ("use", "cast"):
+                op = rv["op"]
+            elif rv["k"] == "ref":
+                op = {"k": "copy", "pl": rv["pl"]}
+            else:
+                return None
+        return None
+
+    def _devirtualise(self, i, b, t):
+        fn = self._fn_item_of(t["fn_op"])
+        if not fn or not fn.get("def"):
+            return
+        line = t.get("line", 0)
+        path = fn["def"]
+        parent, _, vname = path.rpartition("::")
+        adt = self.facts.adt(parent) if hasattr(self.facts, "adt") else None
+        if adt is not None and adt["kind"] == "enum" and self.facts.fn(path) is None:
+            vi = next((k for k, v in enumerate(adt["variants"]) if v["name"] == vname), None)
+            if vi is not None and len(adt["variants"][vi]["fields"]) == len(t["ops"]):
+                b["stmts"] = b["stmts"] + [_assign(copy.deepcopy(t["dest"]), _adt(parent, vname, vi, [copy.deepcopy(o) for o in t["ops"]]), line)]
+                b["term"] = _goto(t["t"], line)
+                return
+        t["callee"] = copy.deepcopy(fn)
+
+    def call_def(self, local):
+        """The unique call terminator whose destination is the whole local, or None."""
+        found = None
+        for blk in self.blocks:
+            t = blk["term"]
+            if t and t["k"] == "call" and t["dest"]["l"] == local and not t["dest"]["p"]:
+                if found is not None:
+                    return None
+                found = t
+        for blk in self.blocks:
+            for st in blk["stmts"]:
+                if st["k"] == "assign" and st["lhs"]["l"] == local and not st["lhs"]["p"]:
+                    return None
+        return found
+
+    def _expand_fold_literal(self, i, b, t, c, depth, stack):
+        """`[a, b, c].iter().fold(init, f)` over an array literal written in the function is f(f(f(init, &a), &b), &c):
+        unrolled, with the closure body in place of each application (a table of flags folded into a byte)."""
+        ops = t["ops"]
+        line = t.get("line", 0)
+        if len(ops) != 3 or ops[0].get("k") not in ("move", "copy") or ops[0]["pl"]["p"]:
+            return False
+        cl = self.closure_of(ops[2])
+        if cl is None:
+            return False
+        f = self.facts.fn(cl[0])
+        if f is None or f["kind"] != "closure" or cl[0] in stack or f["arg_count"] != 3:
+            return False
+        it = self.call_def(ops[0]["pl"]["l"])
+        if it is None or not re.search(r"slice::<impl \[T\]>::iter$", (it.get("callee") or {}).get("def", "")) or not it["ops"]:
+            return False
+        # the slice: `&arr as &[T]` with arr an array literal
+        cur = it["ops"][0]
+        arr = None
+        for _ in range(6):
+            if cur.get("k") not in ("move", "copy") or [p for p in cur["pl"]["p"] if p != "deref"]:
+                return False
+            st = self.single_def(cur["pl"]["l"])
+            if st is None:
+                return False
+            rv = st["rv"]
+            if rv["k"] == "agg" and rv.get("what") == "array":
+                arr = rv
+                break
+            if rv["k"] in ("use", "cast"):
+                cur = rv["op"]
+            elif rv["k"] == "ref":
+                cur = {"k": "copy", "pl": rv["pl"]}
+            else:
+                return False
+        if arr is None or not (1 <= len(arr["ops"]) <= 16) or any(o.get("k") not in ("move", "copy") or o["pl"]["p"] for o in arr["ops"]):
+            return False
+        elem_ty = f["locals"][3]["ty"]
+        acc_ty = f["locals"][2]["ty"]
+        dest, target = t["dest"], t["t"]
+        acc = self.new_local(acc_ty)
+        b["stmts"] = b["stmts"] + [_assign(_pl(acc), _use(copy.deepcopy(ops[1])), line)]
+        fin = self.new_block([], _goto(target, line), i)
+        blocks = [self.new_block([], None, i) for _ in arr["ops"]]
+        for k, o in enumerate(arr["ops"]):
+            nxt = blocks[k + 1] if k + 1 < len(blocks) else fin
+            r = self.new_local(elem_ty)
+            nacc = self.new_local(acc_ty)
+            blk = self.blocks[blocks[k]]
+            blk["stmts"] = [_assign(_pl(r), {"k": "ref", "mut": False, "fake": False, "pl": {"l": o["pl"]["l"], "p": []}}, line)]
+            blk["term"] = _goto(nxt, line)
+            self._splice_closure(blocks[k], blk, f, cl[1], [_mv(acc), _mv(r)], _pl(nacc), nxt, depth, stack, line)
+            acc = nacc
+        self.blocks[fin]["stmts"] = [_assign(copy.deepcopy(dest), _use(_mv(acc)), line)]
+        b["term"] = _goto(blocks[0], line)
         b["term"]["expanded"] = c["def"]
         return True
 
